@@ -62,8 +62,11 @@ def sensitivity():
             v = 'MISSED (exit 0)' if rc == '0' else ('infrastructure error' if rc not in ('0', '1') else
                 ('caught, no failing input found' if 'no-failing-input-found' in log else 'caught with failing input'))
             verdicts.append(f'{cid}: {v}')
+        fv = m.get('first_verdict')
+        if fv and fv != m.get('confirmed', {}).get('checks_run'):
+            verdicts.insert(0, 'FIRST RUN: ' + ', '.join('MISSED (exit 0)' if c.endswith(':rc=0') else c for c in fv) + ' → after strengthening')
         if m.get('strengthened'):
-            verdicts.append('after strengthening: ' + m['strengthened'])
+            verdicts.append(m['strengthened'])
         summ = str(m.get('summary', '')).replace('|', '\\|').replace('\n', ' ')[:300]
         needs = str(m.get('needs', '')).replace('|', '\\|').replace('\n', ' ')[:300]
         out.append(f"| {os.path.basename(d)} | {summ} | {needs} | {'; '.join(verdicts)} |")
